@@ -227,11 +227,11 @@ def maxTotal (o : List DItem) (w : List Tok) : Option Int :=
     | none => some t
     | some m => some (if t > m then t else m)) none
 
-/-- the best total among the derivations of `w` whose sum below the root is `below` (the candidates
-the kept tree can be; the root of a real tree carries only the sum below it) -/
+/-- the best total among the derivations of `w` whose TOTAL is the value `below` the root of the real
+tree carries (the candidates the kept tree can be; since 6ed1862 the rebuilt root carries the start
+production's own value too) -/
 def keptTotal (o : List DItem) (w : List Tok) (below : Int) : Option Int :=
-  -- (a runtime that carries the start production's own value up to the root shows the total instead)
-  maxTotal (o.filter fun d => d.e == below || comb d.own d.inl + d.e == below) w
+  maxTotal (o.filter fun d => comb d.own d.inl + d.e == below) w
 
 /-- the greatest sum-below-the-root over all derivations of `w` -/
 def maxDyn (o : List DItem) (w : List Tok) : Option Int :=
